@@ -69,7 +69,7 @@ CHECKS = {
         "parameters, f-string conversions/specs, lambda defaults); a depth family (nested def/class/if/mixed "
         "blocks x depths) and long-chain programs cover size x runtime. Interpreters are discovered at run "
         "time; the check exits 2 (cannot decide) with fewer than two runtimes.",
-        "3.14 is not in the image. Only stdout is compared across runtimes. Two open findings: ast.unparse "
+        "3.14 is not in the image. Stdout and the probe trace are compared per runtime. Two open findings: ast.unparse "
         "writes host-version syntax (excluded per (host, unparser) cell by structural predicates on the "
         "source); deep def/class nesting overflows the 3.8 parser stack (runtime 3.8 left out above depth 16).",
         "DESIGN.md section 3, C15"),
@@ -134,7 +134,9 @@ CHECKS = {
         "__ol_*/itertools/importlib may be added. Failures are shrunk by Hypothesis and a "
         "statement-level delta debugger. The pool (incl. 14 dense hand-written 'zoo' programs) and the "
         "repository's scripts run as well, and so do the quick case sets of the C05/C06/C07/C13 engines "
-        "(whole programs decided by this same oracle) under a derived seed. Sampled, not exhaustive.",
+        "(whole programs decided by this same oracle) under a derived seed, and the G-NEST sweep of "
+        "construct interactions (every construct inside / next to every other, about 17 000 programs). "
+        "Sampled, not exhaustive.",
         "Trusts CPython as reference and the canonical-value comparison; functions compare as "
         "'callable' (observed through calls). Host 3.12 only in the quick tier.",
         "DESIGN.md section 3, C01"),
